@@ -60,7 +60,8 @@ type FuncContract struct {
 	Wraps    bool      // arithmetic intentionally wraps (int mode: no overflow obligations)
 	Decoder  bool      // C11: inputs unconstrained, termination mandatory
 	IgnoreChan bool    // channel sends are no-ops (explicit assumption)
-	AssumePre  map[string]bool // callees whose preconditions are assumed, not checked, in this function
+	PerReturn  bool              // postconditions are evaluated on the state of each return statement separately (not on the merged exit state)
+	AssumePre  map[string]string // callees whose preconditions are assumed, not checked, in this function ("*": all, else the label of the one assumed)
 	Abstract []string  // abstracted instruction patterns
 	Ghost    []GhostDecl
 	GhostAt  []*GhostAt
@@ -88,6 +89,7 @@ type SpecFunc struct {
 	Opaque   bool
 	EntryState bool
 	Local    bool
+	Macro    bool // function-local abbreviation expanded in the environment of its use (locals and current memory visible)
 	Line   int
 }
 
@@ -151,7 +153,7 @@ var clauseKW = map[string]bool{
 	"func": true, "spec": true, "lemma": true, "axiom": true, "trusted": true, "mode": true, "props": true,
 	"requires": true, "ensures": true, "modifies": true, "loop": true, "inline": true,
 	"pure": true, "nullable": true, "may_alias": true, "panics": true, "wraps": true,
-	"decoder": true, "abstract": true, "ghost": true, "terminates": true, "uninterp": true, "at": true, "opaque": true, "def": true, "table": true, "anymode": true, "uses": true, "embedded": true, "ghostfield": true, "channels": true, "assumes": true,
+	"decoder": true, "abstract": true, "ghost": true, "terminates": true, "uninterp": true, "at": true, "opaque": true, "def": true, "macro": true, "returns": true, "table": true, "anymode": true, "uses": true, "embedded": true, "ghostfield": true, "channels": true, "assumes": true,
 }
 
 var reTag = regexp.MustCompile(`^(\w+)\[([A-Z0-9, ]+)\]`)
@@ -481,6 +483,20 @@ func (cs *Contracts) ParseContractFile(path, pkgPath string) error {
 					cur.LocalSpecs = map[string]*SpecFunc{}
 				}
 				cur.LocalSpecs[sf.Name] = sf
+			case "macro":
+				// function-local abbreviation: expanded where it is used, so local variables, ghost
+				// state and memory are those of the place of use
+				sf, err := parseSpecFunc(rest)
+				if err != nil {
+					return fail("%v", err)
+				}
+				sf.Pkg = pkgPath
+				sf.Line = ll.line
+				sf.Local, sf.Macro = true, true
+				if cur.LocalSpecs == nil {
+					cur.LocalSpecs = map[string]*SpecFunc{}
+				}
+				cur.LocalSpecs[sf.Name] = sf
 			case "inline":
 				cur.Inline = true
 			case "pure":
@@ -498,13 +514,24 @@ func (cs *Contracts) ParseContractFile(path, pkgPath string) error {
 				// function instead of being checked (they are the responsibility of this function's own
 				// callers, e.g. ordering conditions over a history); listed as an assumption
 				f := strings.Fields(rest)
-				if len(f) != 2 || f[0] != "pre" {
-					return fail("expected 'assumes pre <callee>'")
+				if (len(f) != 2 && len(f) != 3) || f[0] != "pre" || (len(f) == 3 && !strings.HasPrefix(f[2], "@")) {
+					return fail("expected 'assumes pre <callee> [@label]'")
 				}
 				if cur.AssumePre == nil {
-					cur.AssumePre = map[string]bool{}
+					cur.AssumePre = map[string]string{}
 				}
-				cur.AssumePre[f[1]] = true
+				cur.AssumePre[f[1]] = "*"
+				if len(f) == 3 {
+					cur.AssumePre[f[1]] = f[2][1:]
+				}
+			case "returns":
+				// "returns separately": each postcondition is evaluated on the state of every return
+				// statement in turn (the obligation is their conjunction) instead of on the merged exit
+				// state, whose nested if-then-else terms can keep the solvers from matching anything
+				if strings.TrimSpace(rest) != "separately" {
+					return fail("expected 'returns separately'")
+				}
+				cur.PerReturn = true
 			case "channels":
 				// "channels ignored": channel sends in this function are treated as no-ops (what the
 				// receiving goroutine does is outside the contract); listed as an assumption
